@@ -400,6 +400,15 @@ def gen_next(rng, live, cfg, prev=None, focus=None):
         return ["new_space", parent, nm, bases]
     if k == "del_space":
         return ["del_space", path]
+    if k == "cur_space":
+        # the session's own handle: mostly a NESTED space (a child, a grandchild), so that deleting an ancestor
+        # deletes what the handle denotes
+        nested = [p for p in paths if "." in p]
+        tgt = rng.choice(nested) if nested and rng.random() < 0.7 else path
+        return ["cur_space", tgt, rng.choice(["mx", "mx", "parent"])]
+    if k == "cur_cells":
+        # API use through the session's handle (new_cells through mx.cur_space() / model.cur_space(), mx.defcells)
+        return ["cur_cells", rng.choice(W.CELLS), W.gen_formula(rng, paths), rng.choice(["new_cells", "model", "defcells"])]
     ext = bool(cfg.get("ext"))
     if k == "new_cells":
         free = [n for n in W.CELLS if n not in cells]
@@ -1022,7 +1031,7 @@ def replay_struct(payload, out, hooks_factory, cfg):
         run_one(ops_from_json(h), out, collections.Counter(), hooks_factory(), cfg)
 
 
-EDIT_KINDS = ("new_cells_src", "set_param", "new_space", "del_space", "rename_space", "new_cells", "set_formula", "set_cached", "del_cells",
+EDIT_KINDS = ("cur_space", "cur_cells", "new_cells_src", "set_param", "new_space", "del_space", "rename_space", "new_cells", "set_formula", "set_cached", "del_cells",
               "rename_cells", "add_bases", "remove_bases", "set_ref", "del_ref", "set_mref", "del_mref",
               "set_value", "clear", "clear_all", "clear_at", "allow_none",
               "new_cells_obj", "set_formula_obj", "set_param_obj", "new_space_obj",
